@@ -142,14 +142,15 @@ def mapper_totality(chk: Check, rel: str, fname: str, want_base: str, extra_args
             o.witness = {"outcome": p.kind, "value": str(p.value)[:120], "group": gname}
             # concrete message: solver model of the path condition first, then texts built from its literals
             cands: List[str] = []
-            for q in bad[:6]:
+            for q in bad[:4]:
                 try:
-                    t = pystrops.model_text(eng, q.pc, msg)
+                    t = pystrops.model_text(eng, q.pc, msg, timeout=10.0)
                 except Exception:  # noqa: BLE001
                     t = None
-                if t is not None and t not in cands:
-                    cands.append(t)
-                for t2 in pystrops.literal_candidates(q.pc, msg):
+                for t1 in ([t, t.upper()] if t is not None else []):
+                    if t1 not in cands:
+                        cands.append(t1)
+                for t2 in pystrops.literal_candidates(q.pc, msg, q.effects):
                     if t2 not in cands:
                         cands.append(t2)
             have_model = bool(cands)
